@@ -5,6 +5,11 @@
 
 package trzsz
 
+import (
+	"fmt"
+	"sync"
+)
+
 // VerifSetClipboardWriter replaces the package-level clipboard writer used by the OSC52
 // scanner, so that a test never touches a real clipboard; it returns the restore function.
 func VerifSetClipboardWriter(f func(buf []byte)) (restore func()) {
@@ -31,3 +36,37 @@ func VerifDetectDragFiles(buf []byte) (files []string, hasDir, ignore, isWinPath
 
 // VerifTrimVT100 exposes trimVT100 (used on the echo of a drag-upload command).
 func VerifTrimVT100(buf []byte) []byte { return trimVT100(buf) }
+
+var verifOSC52Mu sync.Mutex
+
+// VerifOSC52Scan feeds the chunks, one call each, to the OSC52 scanner of a fresh filter
+// (filter.detectOSC52, called directly in the caller's goroutine) with the clipboard writer
+// replaced by a recorder.  It returns what would have been written to the clipboard, the
+// partial-sequence buffer left behind (hasPending = the buffer is non-nil) and, if the
+// scanner panicked, the index of the chunk it panicked on (else -1) and the panic text.
+func VerifOSC52Scan(chunks [][]byte) (clips [][]byte, pending []byte, hasPending bool, panicAt int, panicText string) {
+	verifOSC52Mu.Lock()
+	defer verifOSC52Mu.Unlock()
+	old := writeToClipboard
+	writeToClipboard = func(b []byte) { clips = append(clips, append([]byte(nil), b...)) }
+	defer func() { writeToClipboard = old }()
+	f := &TrzszFilter{}
+	panicAt = -1
+	for i, c := range chunks {
+		func() {
+			defer func() {
+				if r := recover(); r != nil {
+					panicAt, panicText = i, fmt.Sprint(r)
+				}
+			}()
+			f.detectOSC52(append([]byte(nil), c...))
+		}()
+		if panicAt >= 0 {
+			return
+		}
+	}
+	if f.osc52Sequence != nil {
+		pending, hasPending = append([]byte(nil), f.osc52Sequence.Bytes()...), true
+	}
+	return
+}
